@@ -1,5 +1,233 @@
-(* C19 — property theorems only (each closed by [exact]) + Print Assumptions. *)
+(* C19 — property theorems only (each closed by [exact]) + Print Assumptions.
+   Part 1: tokenizers, token filters, analyzer pipeline, the reverse filter.
+   Part 2 (below): MergeOverlapping, fragmenter, formatters, highlighting. *)
 From Coq Require Import ZArith List.
-From Verif Require Import Common.Bytes Text.Model.
+From Verif Require Import Common.Bytes Text.Model Text.Proofs Text.ProofsHL.
 Import ListNotations.
 Local Open Scope Z_scope.
+
+(* ---- the character-class tokenizer (letter, whitespace, any predicate) and single *)
+
+Theorem C19_tokenizer_valid : forall (isTok : Z -> bool) (input : bytes),
+  valid_stream (zlen input) (char_tokenize isTok input) = true.
+Proof. exact tokenizer_valid. Qed.
+Print Assumptions C19_tokenizer_valid.
+
+Theorem C19_tokenizer_terms : forall isTok input t,
+  In t (char_tokenize isTok input) -> t_term t = sub input (t_start t) (t_end t).
+Proof. exact tokenizer_terms. Qed.
+Print Assumptions C19_tokenizer_terms.
+
+Theorem C19_letter_valid : forall letters input,
+  valid_stream (zlen input) (letter_tokenize letters input) = true.
+Proof. exact letter_valid. Qed.
+Print Assumptions C19_letter_valid.
+
+Theorem C19_whitespace_valid : forall spaces input,
+  valid_stream (zlen input) (whitespace_tokenize spaces input) = true.
+Proof. exact whitespace_valid. Qed.
+Print Assumptions C19_whitespace_valid.
+
+Theorem C19_single_valid : forall input, valid_stream (zlen input) (single_tokenize input) = true.
+Proof. exact single_valid. Qed.
+Print Assumptions C19_single_valid.
+
+(* ---- filter_preserves_valid, one per transcribed filter *)
+
+Theorem C19_lowercase_preserves : forall lower len ts,
+  valid_stream len ts = true -> valid_stream len (lowercase_filter lower ts) = true.
+Proof. exact lowercase_preserves. Qed.
+Print Assumptions C19_lowercase_preserves.
+
+Theorem C19_length_preserves : forall mn mx len ts,
+  valid_stream len ts = true -> valid_stream len (length_filter mn mx ts) = true.
+Proof. exact length_preserves. Qed.
+Print Assumptions C19_length_preserves.
+
+Theorem C19_truncate_preserves : forall n len ts ts',
+  valid_stream len ts = true -> truncate_filter n ts = Some ts' -> valid_stream len ts' = true.
+Proof. exact truncate_preserves. Qed.
+Print Assumptions C19_truncate_preserves.
+
+Theorem C19_truncate_total : forall n ts, 0 <= n -> truncate_filter n ts <> None.
+Proof. exact truncate_total. Qed.
+Print Assumptions C19_truncate_total.
+
+Theorem C19_stop_preserves : forall words len ts,
+  valid_stream len ts = true -> valid_stream len (stop_filter words ts) = true.
+Proof. exact stop_preserves. Qed.
+Print Assumptions C19_stop_preserves.
+
+Theorem C19_unique_preserves : forall len ts,
+  valid_stream len ts = true -> valid_stream len (unique_filter ts) = true.
+Proof. exact unique_preserves. Qed.
+Print Assumptions C19_unique_preserves.
+
+Theorem C19_ngram_preserves : forall mn mx len ts,
+  valid_stream len ts = true -> valid_stream len (ngram_filter mn mx ts) = true.
+Proof. exact ngram_preserves. Qed.
+Print Assumptions C19_ngram_preserves.
+
+Theorem C19_edge_ngram_preserves : forall back mn mx len ts,
+  valid_stream len ts = true -> valid_stream len (edge_filter back mn mx ts) = true.
+Proof. exact edge_preserves. Qed.
+Print Assumptions C19_edge_ngram_preserves.
+
+Theorem C19_keyword_preserves : forall words len ts,
+  valid_stream len ts = true -> valid_stream len (keyword_filter words ts) = true.
+Proof. exact keyword_preserves. Qed.
+Print Assumptions C19_keyword_preserves.
+
+Theorem C19_apostrophe_preserves : forall len ts,
+  valid_stream len ts = true -> valid_stream len (apostrophe_filter ts) = true.
+Proof. exact apostrophe_preserves. Qed.
+Print Assumptions C19_apostrophe_preserves.
+
+Theorem C19_elision_preserves : forall articles len ts,
+  valid_stream len ts = true -> valid_stream len (elision_filter articles ts) = true.
+Proof. exact elision_preserves. Qed.
+Print Assumptions C19_elision_preserves.
+
+Theorem C19_reverse_preserves : forall rv len ts ts',
+  valid_stream len ts = true -> reverse_filter rv ts = Some ts' -> valid_stream len ts' = true.
+Proof. exact reverse_preserves. Qed.
+Print Assumptions C19_reverse_preserves.
+
+(* shingle keeps every span inside the text but NOT the tokenizer contract (filler-only
+   shingles have position 0; with output_original a token precedes shingles that start earlier) *)
+Theorem C19_shingle_offsets : forall c len ts,
+  1 <= sh_min c -> valid_stream len ts = true -> valid_offsets len (shingle_filter c ts) = true.
+Proof. exact shingle_offsets. Qed.
+Print Assumptions C19_shingle_offsets.
+
+Theorem C19_shingle_not_valid_refuted : exists c ts len,
+  valid_stream len ts = true /\ valid_stream len (shingle_filter c ts) = false.
+Proof. exact shingle_not_valid_refuted. Qed.
+Print Assumptions C19_shingle_not_valid_refuted.
+
+(* ---- pipeline_valid: a valid tokenizer followed by preserving filters is a valid analyzer *)
+
+Theorem C19_pipeline_valid :
+  forall len (tok : bytes -> list token) (fs : list (list token -> list token)) input,
+  valid_stream len (tok input) = true ->
+  Forall (fun f => forall ts, valid_stream len ts = true -> valid_stream len (f ts) = true) fs ->
+  valid_stream len (analyze tok fs input) = true.
+Proof. exact pipeline_valid. Qed.
+Print Assumptions C19_pipeline_valid.
+
+Theorem C19_pipeline_valid_offsets :
+  forall len (tok : bytes -> list token) (fs : list (list token -> list token))
+         (g : list token -> list token) input,
+  valid_stream len (tok input) = true ->
+  Forall (fun f => forall ts, valid_stream len ts = true -> valid_stream len (f ts) = true) fs ->
+  (forall ts, valid_stream len ts = true -> valid_offsets len (g ts) = true) ->
+  valid_offsets len (analyze tok (fs ++ [g]) input) = true.
+Proof. exact pipeline_valid_offsets. Qed.
+Print Assumptions C19_pipeline_valid_offsets.
+
+(* ---- reverse_total.  FALSE of the faithful model of the code as found (variant 1): the
+   statement [forall s, reverse_cur is_mark s <> None] is refuted by the bytes C3 C3 (two
+   invalid bytes, each converted to U+FFFD of RuneLen 3: output[cursorOut-3:...] with
+   cursorOut = 2).  TRUE of the repaired variant 2.  Which variant is in the tree is the T1
+   fact XText.reverse_variant (Extracted/Obligations_C19.v). *)
+
+Theorem C19_reverse_refuted : forall is_mark, reverse_cur is_mark [195; 195] = None.
+Proof. exact reverse_refuted. Qed.
+Print Assumptions C19_reverse_refuted.
+
+Theorem C19_reverse_total_refuted : forall is_mark, exists s, reverse_cur is_mark s = None.
+Proof. exact reverse_cur_refuted. Qed.
+Print Assumptions C19_reverse_total_refuted.
+
+Theorem C19_reverse_total_fixed : forall is_mark s,
+  exists out, reverse_fixed is_mark s = Some out /\ length out = length s.
+Proof. exact reverse_fixed_total. Qed.
+Print Assumptions C19_reverse_total_fixed.
+
+(* on valid UTF-8 (every decoded width = RuneLen of the rune) the two variants coincide, so the
+   code as found is total exactly there *)
+Theorem C19_reverse_cur_agrees : forall is_mark s,
+  Forall (fun rw => rune_len (fst rw) = snd rw) (runes_w s) ->
+  reverse_cur is_mark s = reverse_fixed is_mark s.
+Proof. exact reverse_cur_agrees. Qed.
+Print Assumptions C19_reverse_cur_agrees.
+
+(* ================================================================== Part 2: highlighting
+   [wf_loc l] = l_start l <= l_end l;  [nonneg_loc l] = 0 <= l_start l /\ 0 <= l_end l
+   (Text/ProofsHL.v).  Locations may otherwise be out of range, overlapping, unsorted,
+   duplicated; formatter entries may be nil. *)
+
+(* ---- format_in_bounds: the formatters never slice outside Orig *)
+Theorem C19_format_in_bounds : forall orig f locs,
+  in_range (zlen orig) (f_start f) (f_end f) = true ->
+  Forall (fun ol => match ol with Some l => wf_loc l | None => True end) locs ->
+  format_segs orig f locs <> None.
+Proof. exact format_in_bounds. Qed.
+Print Assumptions C19_format_in_bounds.
+
+(* Start <= End is necessary: an inverted location makes Orig[Start:End] panic *)
+Theorem C19_format_inverted_refuted : exists orig f locs,
+  in_range (zlen orig) (f_start f) (f_end f) = true /\ format_segs orig f locs = None.
+Proof. exact format_inverted_refuted. Qed.
+Print Assumptions C19_format_inverted_refuted.
+
+(* ---- fragment_faithful (formatter level): markup removed = Orig[f.Start:f.End], every marked
+   span is the text at one of the locations handed to Format *)
+Theorem C19_fragment_faithful : forall orig f locs segs,
+  in_range (zlen orig) (f_start f) (f_end f) = true ->
+  format_segs orig f locs = Some segs ->
+  plain_of segs = sub orig (f_start f) (f_end f) /\
+  Forall (fun sg => fst sg = true ->
+            exists l, In (Some l) locs /\ slice orig (l_start l) (l_end l) = Some (snd sg)) segs.
+Proof. exact fragment_faithful. Qed.
+Print Assumptions C19_fragment_faithful.
+
+(* ---- MergeOverlapping as transcribed keeps Start <= End, the list length, and only ever pairs a
+   Start of an input location with an End of an input location *)
+Theorem C19_merge_wf : forall t,
+  Forall (fun ol => match ol with Some l => wf_loc l | None => True end) t ->
+  Forall (fun ol => match ol with Some l => wf_loc l | None => True end) (merge_overlapping t).
+Proof. exact merge_wf. Qed.
+Print Assumptions C19_merge_wf.
+
+Theorem C19_merge_ends : forall t l, In (Some l) (merge_overlapping t) ->
+  (exists a, In (Some a) t /\ l_start a = l_start l) /\ (exists b, In (Some b) t /\ l_end b = l_end l).
+Proof. exact merge_ends. Qed.
+Print Assumptions C19_merge_ends.
+
+(* ---- fragment_in_bounds: the fragmenter never slices outside Orig (and its loops terminate
+   within the fuel) for any non-negative locations and any fragment size >= 1 *)
+Theorem C19_fragment_in_bounds : forall size orig ot,
+  0 < size -> Forall nonneg_loc ot -> fragment size orig ot <> None.
+Proof. exact fragment_in_bounds. Qed.
+Print Assumptions C19_fragment_in_bounds.
+
+(* fragment size >= 1 is necessary: with size 0 a location beyond the value is sliced *)
+Theorem C19_fragment_size0_refuted : exists orig ot, Forall nonneg_loc ot /\ fragment 0 orig ot = None.
+Proof. exact fragment_size0_refuted. Qed.
+Print Assumptions C19_fragment_size0_refuted.
+
+(* every fragment produced satisfies 0 <= Start <= End <= len(Orig) *)
+Theorem C19_fragment_wf : forall size orig ot fs,
+  0 < size -> Forall nonneg_loc ot -> fragment size orig ot = Some fs ->
+  Forall (fun f => in_range (zlen orig) (f_start f) (f_end f) = true) fs.
+Proof. exact fragment_wf. Qed.
+Print Assumptions C19_fragment_wf.
+
+(* ---- the composition BestFragmentsInField performs: fragment, merge, format *)
+Theorem C19_highlight_in_bounds : forall size orig ot,
+  0 < size -> Forall (fun l => 0 <= l_start l /\ wf_loc l) ot ->
+  exists fs, fragment size orig ot = Some fs /\
+    Forall (fun f => format_segs orig f (merge_overlapping (map Some ot)) <> None) fs.
+Proof. exact highlight_in_bounds. Qed.
+Print Assumptions C19_highlight_in_bounds.
+
+Theorem C19_highlight_faithful : forall size orig ot fs f segs,
+  0 < size -> Forall (fun l => 0 <= l_start l /\ wf_loc l) ot ->
+  fragment size orig ot = Some fs -> In f fs ->
+  format_segs orig f (merge_overlapping (map Some ot)) = Some segs ->
+  plain_of segs = sub orig (f_start f) (f_end f) /\
+  Forall (fun sg => fst sg = true ->
+            exists a b, In a ot /\ In b ot /\ slice orig (l_start a) (l_end b) = Some (snd sg)) segs.
+Proof. exact highlight_faithful. Qed.
+Print Assumptions C19_highlight_faithful.
